@@ -107,7 +107,11 @@ def _worker(spec):
     k = 'outcome-' + ('empty-list' if designs == [] else
                       'designs' if err is None else outcome)
     out['stats'][k] = out['stats'].get(k, 0) + 1
-    if err is not None and not isinstance(err, ValueError):
+    if isinstance(err, sl.SearchTimeout):
+      out['viol'].append((
+          'C09/%s/does-not-terminate' % which,
+          case.describe(search=which, message=str(err)), None))
+    elif err is not None and not isinstance(err, ValueError):
       out['viol'].append((
           'C09/%s/raises-%s' % (which, type(err).__name__),
           case.describe(search=which, exception=type(err).__name__,
